@@ -28,12 +28,28 @@ def units(tier, seed=0):
              'SdivA1', 'SmmlsA1', 'QdsubA1', 'RfeA1', 'SrsArmA1']
     step.load_tables(tables)
     from spec.isa import ISA
-    only = [r for r in risky if r in ISA]
+    from spec import isa_blk
+    blk = [r for r in risky if r in isa_blk.KIND]
+    only = [r for r in risky if r in ISA and r not in isa_blk.KIND]
+    # block transfers: windowed register lists (see C03), the windows around SP/LR/PC and the low registers
+    for name in blk:
+        for arch in ([7] if tier == 'quick' else [6, 7]):
+            for uname, opts in isa_blk.units(name, arch, 'std', labels=('LO', 'HI', 'LO8', 'HI8', 'SYM')):
+                us.append(UnitSpec('range/' + uname, 'vf.step', 'mk_step', opts, max_seconds=2400, weight=3))
     fams = set(ISA[r].family for r in only)
     if tier == 'quick':
         us += famcheck.family_units(fams, [7], tables, only=only, tag='/range')
     else:
         us += famcheck.family_units(fams, [6, 7], tables, only=only, tag='/range')
+    # instructions that name another mode's bank explicitly (user-bank LDM/STM, SRS, RFE, SPSR moves, mode changes):
+    # from an arbitrary mode, every physical register / SPSR of every bank must end up as the bank table says
+    from spec import isa_blk
+    for name, labels in (('LdmUserRegistersA1', ('MID', 'HI')), ('StmUserRegistersA1', ('MID', 'HI')),
+                         ('SrsArmA1', None), ('RfeA1', None), ('SrsThumbT1', None), ('RfeT2', None)):
+        for uname, opts in isa_blk.units(name, 7, 'std', labels=labels):
+            us.append(UnitSpec('bank/' + uname, 'vf.step', 'mk_step', opts, max_seconds=2400, weight=3))
+    bank_rows = ['MrsSystemA1', 'MsrRegisterSystemA1', 'CpsArmA1', 'SubsPcLrArmA1', 'MsrImmediateSystemA1']
+    us += famcheck.family_units(set(ISA[r].family for r in bank_rows if r in ISA), [7] if tier == 'quick' else [6, 7], tables, only=bank_rows, tag='/bank')
     return us
 
 
@@ -45,7 +61,9 @@ META = {
                    'physical register keeps its value. Because the step starts from an arbitrary state this covers '
                    'every history of writes, reads and mode switches (one-step induction; invariant: every entry is '
                    'a value in [0,2^32)). The range invariant is checked after every exception entry and after the '
-                   'instruction rows most prone to unwrapped arithmetic; the full functional tables (C01-C04, C09, '
+                   'instruction rows most prone to unwrapped arithmetic, and the rows that name another mode bank '
+                   'explicitly (LDM/STM user registers with R8-R14 listed, SRS, RFE, SPSR moves, CPS, exception return) '
+                   'are stepped from an arbitrary mode with all 34 physical registers compared; the full functional tables (C01-C04, C09, '
                    'C12) assert it for every row they cover.',
     'bounds': ['configurations enumerated: {security, no security, security+virtualization}', 'single step from an '
                'arbitrary state (histories covered inductively)'],
